@@ -178,6 +178,7 @@ func init() {
 				if t == Thorough {
 					cf = cfgs([]int{1, 2, 8}, []int{0, 62, 126, 190, 250}, one, uPQ)
 				}
+				cf = append(cf, cfgs([]int{1}, []int{61, 125}, one, uPQ)...) // exactly 64 / 128 registered types
 				cf = autoPad(cf, 1, 2)
 			} else {
 				cf = cfgs([]int{1}, []int{0, 63}, one, uPQ)
